@@ -16,6 +16,7 @@ import (
 	"os"
 	"strconv"
 	"strings"
+	"time"
 )
 
 // Violation is the panic value raised natively by a failed Assert.
@@ -186,6 +187,18 @@ func MakeLimit(n int) {}
 
 // Unwind sets the per-branch unwinding bound for symbolic loops in this harness.
 func Unwind(n int) {}
+
+// Goroutines(true) makes the symbolic engine run `go` statements as cooperatively scheduled
+// engine threads (default: goroutines are recorded but not run). Natively goroutines always run.
+func Goroutines(on bool) {}
+
+// SchedBound sets the number of voluntary context switches the engine may insert per path at
+// synchronisation points (0: threads run until they block). Natively a no-op.
+func SchedBound(k int) {}
+
+// Yield lets every other goroutine run until it blocks or finishes (engine); natively it sleeps
+// briefly so that started goroutines get to their blocking points.
+func Yield() { time.Sleep(20 * time.Millisecond) }
 
 // Panics runs f and reports whether it panicked (violations and failed assumptions pass through).
 func Panics(f func()) (p bool) {
